@@ -36,6 +36,21 @@ CheckOK(tt, rows, k) ==
     [] k.op = "mul" ->
          /\ (k.outlen < 0 \/ Len(k.out) = k.outlen)      \* -1: the statement fixes no width for this entry point
          /\ \A r \in rows : BSame(Bits(tt, k.out, r), BMul(Bits(tt, k.a, r), Bits(tt, k.b, r)))
+    \* operands wider than 30 bits: the same two identities on bit sequences ( out + b = a  modulo 2^n,  borrow <=> a < b )
+    [] k.op = "sub" /\ (Len(k.a) > 30 \/ Len(k.b) > 30) ->
+         /\ Len(k.out) = Len(k.a)
+         /\ \A r \in rows :
+              LET n == Len(k.a)
+                  trunc(x) == [j \in 1 .. n |-> BBit(x, j)]
+              IN /\ trunc(BAdd(Bits(tt, k.out, r), trunc(Bits(tt, k.b, r)))) = trunc(Bits(tt, k.a, r))
+                 /\ k.borrow # "" => ((r \in tt[k.borrow]) <=> BLess(Bits(tt, k.a, r), Bits(tt, k.b, r)))
+    [] k.op = "subc" /\ (Len(k.a) > 30 \/ Len(k.b) > 30) ->
+         /\ Len(k.out) >= Len(k.a)
+         /\ \A r \in rows :
+              LET n == Len(k.out)
+                  trunc(x) == [j \in 1 .. n |-> BBit(x, j)]
+              IN /\ trunc(BAdd(Bits(tt, k.out, r), trunc(Bits(tt, k.b, r)))) = trunc(Bits(tt, k.a, r))
+                 /\ (r \in tt[k.borrow]) <=> BLess(Bits(tt, k.a, r), Bits(tt, k.b, r))
     [] k.op = "sub" ->
          /\ Len(k.out) = Len(k.a)
          /\ \A r \in rows :
